@@ -55,6 +55,24 @@ func runSequential(t vkit.TB, c Case) {
 	hadExpiredAttempt, hadFault := false, false
 
 	checkStore := func(step int, cause string) bool {
+		if rollbackFault(cause) {
+			// the single failing write was one of the rollback's own writes (the activation had already failed
+			// for another reason, e.g. the code expired between the validity read and the marking): what the
+			// rollback could not remove is not attributed to the activation logic. Counted, case abandoned.
+			leftover := len(w.mappings()) != len(good)
+			for l := int64(0); l < 3 && !leftover; l++ {
+				for _, id := range w.indexEntries(listenBase + l) {
+					if _, ok := good[id]; !ok {
+						leftover = true
+					}
+				}
+			}
+			if leftover {
+				vkit.Excluded(1)
+				vkit.Class("excluded:failing write was a rollback write")
+				return false
+			}
+		}
 		have := map[string]bool{}
 		for _, m := range w.mappings() {
 			have[m.ID] = true
@@ -250,4 +268,10 @@ func TestSequentialHistories(t *testing.T) {
 		c.Steps = append([]Step{first}, rapid.SliceOfN(stepGen, 1, 12).Draw(t, "steps")...)
 		runSequential(t, c)
 	})
+}
+
+// rollbackFault: the injected failure hit a write that only the rollback of an already failed
+// activation performs (removing index entries / the mapping record / the id marker).
+func rollbackFault(cause string) bool {
+	return strings.HasPrefix(cause, "fault@RemoveFromList:") || strings.HasPrefix(cause, "fault@Delete:")
 }
